@@ -186,3 +186,48 @@ _run_c05 = run
 def run(ctx):  # noqa: F811
     _run_c05(ctx)
     r05_3(ctx)
+
+
+# ---------------------------------------------------------------------------------------------------------------- R05.4
+def r05_4(ctx, m):
+    R = "R05.4"
+    ctx.rule(R, "equal_leaves groups leaf chains by the identity of their whole innermost prefix: the grouping key accumulates the id of "
+                "EVERY operator walked from the input side up to and including the first non-adapter one (`key += str(id(op))` inside "
+                "the loop), so `g @ FA_a` and `g @ FA_b` - the same operator object on different inputs - fall into different groups; "
+                "a key made of the first non-adapter operator alone rewires g(b) to g(a)", floor=1)
+    fi = None
+    mod = m.module("nifty.cl.operator_tree_optimiser")
+    for f in mod.all_functions:
+        if f.name == "equal_leaves":
+            fi = f
+    if fi is None:
+        ctx.und(R, "nifty.cl.operator_tree_optimiser::equal_leaves", "function missing", mod.relpath)
+        return
+    ctx.saw_func(fi)
+    key = f"{fi.key}::grouping key of a chain covers the adapters below the first operator"
+    loops = [lp for lp in walk_no_nested(fi.node) if isinstance(lp, ast.For) and "reversed" in src(lp.iter) and "_ops" in src(lp.iter)
+             and any(isinstance(z, ast.Call) and call_name(z) == "write_to_dic" for z in ast.walk(lp))]
+    if len(loops) != 1:
+        ctx.und(R, key, f"{len(loops)} grouping loops over the reversed chain", fi)
+        return
+    lp = loops[0]
+    var = src(lp.target)
+    wr = [z for z in ast.walk(lp) if isinstance(z, ast.Call) and call_name(z) == "write_to_dic" and len(z.args) == 2][0]
+    karg = wr.args[1]
+    if isinstance(karg, ast.Name):
+        acc = [st for st in lp.body if isinstance(st, ast.AugAssign) and src(st.target) == karg.id and isinstance(st.op, ast.Add)
+               and f"id({var})" in src(st.value)]
+        # the accumulation must precede (not be nested under) the non-adapter test
+        ctx.check(R, key, True if acc else None, f"key `{karg.id}` accumulated by `{src(acc[0])}` for every walked operator" if acc else
+                  f"key `{karg.id}`: accumulation not found", fi, wr)
+    else:
+        only_last = f"id({var})" in src(karg) and "+" not in src(karg)
+        ctx.check(R, key, False if only_last else None, f"key `{src(karg)}` is the id of the first non-adapter operator alone", fi, wr)
+
+
+_run_c05x = run
+
+
+def run(ctx):  # noqa: F811
+    _run_c05x(ctx)
+    r05_4(ctx, ctx.model)
